@@ -30,8 +30,8 @@ MANIFEST = {
     "design_ref": "DESIGN.md §6 C15",
     "note": "Partial: proofs are about the real-number reading (rounding not modelled: at Float the "
             "half-open upper bound b of [a,b) can be attained by rounding); the Poisson Gaussian "
-            "branch is proved only under the side condition sample+0.5 > -1 and its negation is proved "
-            "on a witness (unsigned wrap); u = 0 gives +inf / NaN through log(0) in Exponential and "
+            "branch (repaired in /repo 73ca547: clamp at 0) is proved for counts that fit the 32-bit "
+            "result type; u = 0 gives +inf / NaN through log(0) in Exponential and "
             "Normal; EnergyLossUrbanDistribution and EnergyLossHelper are not modelled; target "
             "distributions of normal/gamma/Poisson/Tsai-Urban are tested statistically only.",
 }
@@ -329,6 +329,14 @@ def oracle_one(line, out):
                         "returns %d (negative normal sample cast to unsigned)" % (lam, k))
             if lam <= 16 and k != draws - 1 and len(vals) == 1:
                 return ("oracle:poisson:draws", "direct method: k=%d draws=%d" % (k, draws))
+        if 16 < lam < 1e9 and len(vals) == 1 and draws == 2 and used[1] > 0.0:
+            # independent evaluation: count = normal sample rounded to nearest, clamped at 0
+            z = math.sqrt(-2 * math.log(used[1])) * math.sin(2 * math.pi * used[0])
+            x = lam + math.sqrt(lam) * z + 0.5
+            want = math.floor(x) if x > 0 else 0
+            if abs(int(vals[0]) - want) > 1:
+                return ("oracle:poisson:gauss-value", "Gaussian branch lambda=%r returned %s, "
+                        "independent evaluation gives %d" % (lam, vals[0], want))
     elif op in ("uniform", "recip", "invsq", "recip1"):
         x = fl(vals[0])
         a, b = (1.0, fl(pw[0])) if op == "recip1" else (fl(pw[0]), fl(pw[1]))
@@ -583,7 +591,7 @@ def stat_oracle(ctx, exe, n, alpha=1e-4):
 
 # --------------------------------------------------------------------------- run
 FINDING_TEXT = {
-    "poisson-gaussian-negative": "Props/C15.lean poisson_gauss_support_fails",
+    "poisson-gaussian-negative": "Props/C15.lean poisson_gauss_support / poisson_gauss_lower_tail",
     "exponential-u0-inf": "Props/C15.lean exponential_support needs 0 < u",
     "normal-u0-nonfinite": "Props/C15.lean normal_draws / gamma_support need 0 < u2",
 }
